@@ -694,11 +694,14 @@ def spec_add(ctx):
     if chain:
         ctx.ob(key, 'add: two normal paths (empty name / fresh name) and one rejection (name already used)', len(rets) == 2 and len(divs) == 1 and len(outs) == 3,
                str([(o.kind, o.detail, o.st.decisions) for o in outs]))
+    recorded = 0
     for o in outs:
         cs = sig(o)
         names = [e.callee for e in cs]
         ids = [e for e in cs if re.search(r'DispatcherBuilder::<.*>::next_id$', e.callee)]
-        mp = [i for i, e in enumerate(cs) if re.search(r'HashMap::<String, SystemId.*>::entry$|VacantEntry::<.*>::insert$', e.callee)]
+        MUT = r'HashMap::<String, SystemId.*>::(insert|remove|remove_entry|clear|retain|drain|get_mut|extend|try_insert)$|(Vacant|Occupied)Entry::<.*>::(insert|insert_entry|remove|remove_entry)$'
+        mp = [i for i, e in enumerate(cs) if re.search(r'HashMap::<String, SystemId.*>::entry$', e.callee) or re.search(MUT, e.callee)]
+        muts = [e for e in cs if re.search(MUT, e.callee)]
         ins = [e for e in cs if re.search(r'^StagesBuilder::<.*>::insert::<T>$', e.callee)]
         if chain:
             # dependencies = dep.iter().map(lookup).collect()
@@ -743,18 +746,33 @@ def spec_add(ctx):
                 and ctx.valid('insert id', ins[0].args[2] == ids[0].result) and ctx.valid('insert sys', ins[0].args[3] == P(2)) and cs[-1] is ins[0]
             ctx.ob(key, 'add: ends with stages_builder.insert(resolved deps, the fresh id, the system)', ok, str(names))
             ent = [e for e in cs if re.search(r'::entry$', e.callee)]
-            vac = [e for e in cs if re.search(r'VacantEntry::<.*>::insert$', e.callee)]
-            if ent:
-                ok = len(vac) == 1 and ctx.valid('map id', vac[0].args[1] == ids[0].result)
-                ctx.ob(key, 'add: a fresh non-empty name is recorded with the same id that is handed to insert', ok, str(names))
+            if ent or muts:
+                # the one write to the name map on this path records (name -> the fresh id): VacantEntry::insert(v, id) or HashMap::insert(map, key, id)
+                ok = len(muts) == 1 and bool(ids) and (
+                    (re.search(r'VacantEntry::<.*>::insert$', muts[0].callee) and ctx.valid('map id', muts[0].args[1] == ids[0].result)) or
+                    (re.search(r'HashMap::<String, SystemId.*>::insert$', muts[0].callee) and len(muts[0].args) > 2 and ctx.valid('map id', muts[0].args[2] == ids[0].result)))
+                ctx.ob(key, 'add: a fresh non-empty name is recorded with the same id that is handed to insert', bool(ok), str(names))
+                recorded += 1
+                # ... under the name as given: the key is an owned copy of the `name` parameter itself (the dependency lookup,
+                # has_system and contains use the raw name: a transformed key would make well-formed registrations fail)
+                OWN = r"^<str as ToOwned>::to_owned$|^<str as ToString>::to_string$|^<String as From<&str>>::from$|^<&str as Into<String>>::into$|^core::str::<impl str>::to_string$|^String::from$"
+                keyed = [e for e in cs if re.search(r'HashMap::<String, SystemId.*>::(entry|insert|try_insert)$', e.callee)]
+                okk, whyk = bool(keyed), 'no keyed write'
+                for e in keyed:
+                    src = [c for c in cs if e.args[1].eq(c.result)]
+                    if not (len(src) == 1 and re.search(OWN, src[0].callee) and src[0].args and src[0].args[0].eq(P(3))):
+                        okk, whyk = False, 'key of %s is %s' % (e.callee[:40], [(c.callee[:60], [str(a) for a in c.args]) for c in src] or str(e.args[1]))
+                ctx.ob(key, 'add: the name map is keyed by the name exactly as given (an owned copy of the name parameter)', okk, '' if okk else whyk)
             else:
                 ctx.ob(key, 'add: the empty name never touches the name map', not mp, str(names))
         else:
             ok = not ins and re.search(r'panic', o.detail) is not None
             ctx.ob(key, 'add: a reused name panics before anything is inserted', ok, o.detail)
+            ctx.ob(key, 'add: a rejected registration leaves the name map as it was (no insert / remove / overwrite on the panicking path: the owner of the name keeps it)', not muts, str([e.callee for e in muts]))
             txt = ' '.join(a.text for e in o.trace for a in e.argvals if isinstance(a, Cst))
             ctx.ob(key, 'add: the duplicate-name message quotes the name', 'Cannot insert multiple systems with the same name' in txt and
                    any(re.search(r'new_display::<&str>$', e.callee) for e in o.trace), txt[:200])
+    ctx.ob(key, 'add: exactly one normal path records the new name (the other one is the empty name)', recorded == 1 or not chain, '%d recording paths' % recorded)
     if chain:
         # dependency lookup closure: *map.get(name).unwrap_or_else(panic quoting the name)
         cl = [f2 for f2 in ctx.fns() if f2.name.endswith('::add::{closure#0}') and 'builder.rs' in f2.name]
@@ -1933,6 +1951,28 @@ def spec_print(ctx):
             ok = ctx.valid('d0', cs[0].args[0] == self_field(i_sb)) and ctx.valid('d1', cs[0].args[1] == P(2)) and term_contains(cs[0].args[2], M.f_fld(M.f_deref(P(1)), i_map))
             ctx.ob(key, 'Debug for DispatcherBuilder prints the planner tables of this builder with this builder\'s name map', ok)
 
+    # print_par_seq: prints the builder itself through its Debug impl (checked above), once, and nothing else
+    o = straight(ctx, key, ctx.one(BUILDER, 'print_par_seq'), 'DispatcherBuilder::print_par_seq')
+    if o:
+        cs = match_calls(ctx, key, 'DispatcherBuilder::print_par_seq', o, [r"Argument::<'_>::new_debug::<&DispatcherBuilder<'_, '_>>$", r"^Arguments::<'_>::new(_const|_v1)?\b", r'^std::io::_print$'], noise=r'^drop$')
+        if cs:
+            def local_val(v):
+                if isinstance(v, Ref) and v.place.base[0] == 'L':
+                    return o.st.store.get(v.place.key(), {}).get(v.place.path)
+                return v
+            a0 = local_val(cs[0].argvals[0]) if cs[0].argvals else None
+            r0 = cs[0].argvals[0] if cs[0].argvals else None
+            if a0 is None and isinstance(r0, Ref) and str(r0.place.base[1]).lstrip('_') == '1' and r0.place.base[0] == 'L' and not r0.place.path:
+                a0 = r0      # the parameter itself, never reassigned
+                ok_self = True
+            else:
+                ok_self = a0 is not None and not isinstance(a0, Ref) and to_term(a0).eq(P(1))
+            pieces = [local_val(v) for v in cs[1].argvals]
+            ok_args = any(isinstance(v, Agg) and len(v.fields) == 1 and to_term(v.fields[0]).eq(cs[0].result) for v in pieces if v is not None) or \
+                any(term_contains(a, cs[0].result) for a in cs[1].args)
+            ok_pr = cs[2].args and cs[2].args[0].eq(cs[1].result)
+            ctx.ob(key, 'print_par_seq: the one thing formatted is this builder, through its Debug impl, and the formatted text is what is printed', bool(ok_self and ok_args and ok_pr), 'formatted %r, argument array %r, printed %s' % (a0, pieces, cs[2].args[:1]))
+
 
 SPECS.update({'C20': [('plan printer', spec_print)]})
 
@@ -2816,3 +2856,13 @@ for _p in ('C01', 'C02', 'C03', 'C04', 'C05', 'C10', 'C11', 'C12', 'C13'):
 for _p in ('C01', 'C05'):
     _attach(_p, 'declared access of the provided leaf data types', spec_c06_leaves)
     _attach(_p, 'declared access of tuples = concatenation of the members', spec_c06_tuples)
+# the async dispatcher is a third way to dispatch the same plan: what a dispatch does (exactly once, thread-local systems on
+# the caller after the rest, setup / dispose reach) also depends on its hand-over steps (eleventh seed round: an early return in
+# `wait` was missed by C04 because only `spec_async_dispatch` was attached to it)
+for _p in ('C04', 'C12', 'C13'):
+    _attach(_p, 'async: accessors and the poll', spec_async_accessors)
+    _attach(_p, 'async: state hand-over (inner / sender)', spec_async_data)
+    _attach(_p, 'async: dispatch and the spawned job', spec_async_dispatch)
+    _attach(_p, 'async: wait runs the thread-local systems on the caller, after the state is back', spec_async_wait)
+    _attach(_p, 'async: setup waits too', spec_async_setup)
+    _attach(_p, 'async: build_async', spec_build_async)
